@@ -642,3 +642,18 @@ def raw_path_gate(ctx, rule, which):
                    "the direct (SIMD) read of the front chunk is not gated by %s, which pop_except_from requires before leaving the normalising path: a pending CR / reconsumed character / exact error would be skipped" % bad
                    if bad else "gated by %s like the wrapper's own fast path" % sorted(required), "%s tokenizer step, state %s" % (which, st))
     return n
+
+
+def eat_drains_queue(ctx, rule, which):
+    """when eat() answers 'need more input' it has moved the WHOLE queue into temp_buf: the None answer is given only where the
+    queue's own next() came back empty, and the iteration that did get a character moves it into temp_buf and goes round again
+    (a lookahead that stashes only the front buffer loses - or reorders - the rest of the caller's input)"""
+    T = ctx.tables(which)
+    eat = T["helpers"].get("eat") or []
+    need = [pc for pc in eat if pc["ret"] == "None"]
+    drained = bool(need) and all(any(g.startswith("input.next() matches Some") and v is False for g, v in pc["guards"].items()) for pc in need)
+    moving = [pc for pc in eat if any(g.startswith("input.next() matches Some") and v is True for g, v in pc["guards"].items())]
+    ok = drained and bool(moving) and all(any(a == "self.temp_buf.push_char" for a, _ in pc["actions"]) and pc["ret"] not in ("None",) for pc in moving)
+    ctx.ob(rule, "eat-drains-the-queue-when-it-needs-more/%s" % which, ok,
+           "when eat() answers 'need more input' it has moved the *whole* queue into temp_buf (a loop over input.next())" if ok else
+           "eat() can answer 'need more input' leaving characters in the caller's queue (or moving only part of them): the stashed text and the rest of the input are re-joined in the wrong order or not at all", "%s tokenizer eat" % which)
